@@ -70,6 +70,8 @@ type RunScenario struct {
 	Stale    string   `json:"stale,omitempty"`
 	Kind     string   `json:"kind"` // flags | history | repeat
 	Spelling string   `json:"spelling"`
+	// StdoutFull: the standard output of the run is /dev/full (every write to it fails)
+	StdoutFull bool `json:"stdoutFull,omitempty"`
 }
 
 type RunPrediction struct {
@@ -355,6 +357,19 @@ func init() {
 						}
 					}
 				}
+			}
+			if *prop == "C15" {
+				// -print onto a standard output that cannot be written: whatever the run makes of it, a run that ends in an
+				// error has written nothing
+				for _, fset := range [][]string{{"-print"}, {"-print", "-out"}, {"-print", "-dry"}} {
+					for _, st := range []string{"absent", "stale"} {
+						sc := buildScenario(c, fset, "rel", st)
+						sc.StdoutFull = true
+						scenarios = append(scenarios, sc)
+					}
+				}
+			}
+			switch *prop {
 			case "C17":
 				// which file is the input: the argument, else $GOFILE — also when both are given and differ
 				for _, sp := range []string{"rel", "pkgdir", "gofile", "gofileother"} {
@@ -373,6 +388,12 @@ func init() {
 						scenarios = append(scenarios, RunScenario{Base: c.Name, Kind: "repeat", OutState: "absent", Spelling: sp,
 							Argv: spellArgs(c, nil, sp).Argv, Gofile: spellArgs(c, nil, sp).Gofile, Cwd: spellArgs(c, nil, sp).Cwd})
 					}
+				}
+				// the same run with -log, a few times: neither the clock nor the log may show in the diagnostics or the output
+				for k := 0; k < 3; k++ {
+					sp := spellArgs(c, []string{"-log"}, "rel")
+					scenarios = append(scenarios, RunScenario{Base: c.Name, Kind: "repeat", OutState: "absent", Spelling: "withlog",
+						Argv: sp.Argv, Gofile: sp.Gofile, Cwd: sp.Cwd})
 				}
 				// the same runs over what an earlier run (or anything else) left at the output path, written after the sources:
 				// file times and leftovers are not inputs
@@ -479,7 +500,7 @@ func init() {
 					}
 					want := strings.Join(p.Stdout, "\n")
 					got := strings.TrimSuffix(o.CLI.Stdout, "\n")
-					if want != got {
+					if want != got && !o.Scenario.StdoutFull {
 						diffs = append(diffs, fmt.Sprintf("stdout: model %d bytes, impl %d bytes", len(want), len(got)))
 					}
 					mw := map[string]bool{}
@@ -969,6 +990,9 @@ func runScenario(cli string, drv *Driver, work string, sc RunScenario, ref coreR
 	env := []string{}
 	if sc.Gofile != "" {
 		env = append(env, "GOFILE="+sc.Gofile)
+	}
+	if sc.StdoutFull {
+		env = append(env, "HARNESS_STDOUT=/dev/full")
 	}
 	o.CLI = runCLI(cli, cwd, argv, env)
 	after := takeSnapshot(work)
